@@ -590,6 +590,51 @@ def rule_relex_window(prog):
         out.add("lexer::lex", "token ranges refer to the text that was handed in", bool(a0) and a0["id"] == pid, c.loc(spans[0]["sp"]),
                 "the Span the tokens take their ranges from is not built over the `src` parameter itself: a trimmed or re-sliced input "
                 "shifts every range against the text the caller (AnalyzedSource.text, lexer::update, the features) keeps", ("lexinput",))
+    # lexing is free of the position: update() lexes a Span that is built over the text *behind the untouched head*, whose offset 0 /
+    # line 1 / column 1 is not the start of the document.  A position read from the Span may become part of a token range (it is
+    # shifted afterwards), it must not decide what is lexed.
+    POS = ("location_offset", "location_line", "get_column", "get_utf8_column", "naive_get_utf8_column", "get_line_beginning")
+    n_pos, deciding = 0, []
+    for lb in c.bodies:
+        if not roles.in_lexer_module(c, lb) or "/tests" in c.file_of(lb["sp"]):
+            continue
+        # (functions that are handed a Span: the sub-lexers and their helpers; lex() and update() build theirs)
+        if not any("LocatedSpan" in c.tstr(pp_["t"]) for pp_ in lb["params"] if pp_.get("t") is not None):
+            continue
+        ldefs = {}
+        for l_ in hir.nodes(lb["body"], "Let"):
+            if l_.get("init") is not None:
+                for bd in hir.pat_bindings(l_["pat"]):
+                    ldefs[bd["id"]] = l_["init"]
+        pos_locals = {i_ for i_, v_ in ldefs.items()
+                      if hir.strip_ref(v_).get("k") == "MethodCall" and hir.strip_ref(v_)["m"] in POS and "LocatedSpan" in c.tstr(hir.strip_ref(hir.strip_ref(v_)["recv"])["t"])}
+
+        def is_pos(x_):
+            if x_.get("k") == "MethodCall" and x_["m"] in POS and "LocatedSpan" in c.tstr(hir.strip_ref(x_["recv"])["t"]):
+                return True
+            pl_ = hir.path_local(x_) if x_.get("k") == "Path" else None
+            return bool(pl_ and pl_["id"] in pos_locals)
+        for x_, parents in hir.walk(lb["body"]):
+            if not is_pos(x_):
+                continue
+            n_pos += 1
+            chain = list(parents) + [x_]
+            for i_ in range(len(chain) - 1):
+                p_, nx_ = chain[i_], chain[i_ + 1]
+                k_ = p_.get("k")
+                if (k_ == "If" and nx_ is p_.get("cond")) or (k_ == "Match" and nx_ is p_.get("scrut")) or \
+                        (k_ == "Binary" and p_.get("op") in ("==", "!=", "<", "<=", ">", ">=")) or \
+                        (k_ == "Call" and last(hir.callee(p_) or "") in ("cond", "verify") and p_.get("args") and nx_ is p_["args"][0]) or \
+                        (k_ == "Arm" and nx_ is p_.get("guard")) or k_ == "While":
+                    deciding.append((lb, x_))
+                    break
+    if n_pos:
+        out.add("lexer", "what is lexed does not depend on the position inside the Span", not deciding,
+                c.loc(deciding[0][1]["sp"]) if deciding else c.loc(b["sp"]),
+                ("%s tests a position of its Span; " % deciding[0][0]["d"] if deciding else "") +
+                "update() lexes a Span over the text behind the untouched head: offset 0 there is not the start of the document, so a "
+                "lexer that treats `location_offset() == 0` specially (a byte order mark is skipped) lexes the same text differently "
+                "in lex() and update() (%d position reads looked at)" % n_pos, ("lexinput", "posfree"))
     # the old tokens that survive behind the re-lexed ones are those that *begin* at or behind the end of the last re-lexed token: a
     # selection by where an old token *ends* keeps a token that begins inside the re-lexed text and reaches beyond it (a comment owns
     # its line break) - two tokens then cover the same text
@@ -1093,6 +1138,31 @@ def rule_cursor_cmp(prog):
                     "`token.range.%s %s cursor`: with this form a token that starts exactly at the cursor counts as lying before it "
                     "(or one that ends at the cursor as lying behind it); e.g. the comma right behind the cursor is counted and the "
                     "next parameter is marked active" % form)
+    # one coordinate per handler: a handler that corrects the cursor offset before it looks things up (completion: the token *behind*
+    # which the user types decides) reads the raw offset only to correct it.  A second look-up with the raw offset (also inside a
+    # DocumentCursor method the handler calls) places the cursor in another declaration / token than the rest of the decision.
+    for b in bodies:
+        if b["k"] != "fn" or "::features::" not in b["p"] or b["p"].count("::") < 3:
+            continue
+        corrections = []
+        for call in hir.nodes(b["body"], "Call"):
+            hb = hir.local_callee_body(prog, call)
+            if hb is None or "sig_in" not in hb or len(call.get("args") or []) != 1:
+                continue
+            hc = hb["_crate"]
+            if [hc.tstr(t) for t in hb["sig_in"]] == ["usize"] and hc.tstr(hb["sig_out"]) == "usize" and is_cursor_field(call["args"][0]):
+                corrections.append(call)
+        if not corrections:
+            continue
+        exempt = {id(x) for call in corrections for x in hir.nodes(call)}
+        raw = [x for x in hir.nodes_deep(prog, b["body"], 3, crate=c)
+               if x.get("k") == "Field" and is_cursor_field(x) and id(x) not in exempt]
+        out.add(b["d"], "a handler that corrects the cursor offset looks nothing up with the raw offset", not raw,
+                c.loc((raw or corrections)[0]["sp"]),
+                "the handler decides with `%s(cursor.index)`, but %d further read(s) of the raw `index` are in its reach: at the end of a "
+                "top-level gap, directly in front of `proc`/`type`, the declaration is chosen with one offset and the context inside it with "
+                "the other - completion answers nothing instead of the declaration starters"
+                % (last(hir.callee(corrections[0]) or "?"), len(raw)), ("onecoord",))
     if n == 0:
         out.missing("comparisons of a token bound with the cursor offset in lsp4spl::features")
     return out
@@ -1141,9 +1211,14 @@ def rule_slice_first(prog):
             if n.get("k") == "MethodCall" and n["m"] == "slice" and "AstInfo" in (hir.callee_display(n) or hir.callee(n) or ""):
                 n_slices += 1
         if any(True for x in hir.nodes(b["body"]) if (x.get("k") == "MethodCall" and x["m"] in ("first", "split_first")) or x.get("k") == "Index") or bad:
+            # (a function that also panics when the token is not what it expects turns the wrong token into a crash of the handler)
+            panics = any((x.get("k") == "Call" and (hir.callee(x) or "").startswith("core::panicking")) or
+                         (x.get("k") == "MethodCall" and x["m"] in ("expect", "unwrap")) for x in hir.nodes(b["body"]))
             out.add(b["d"], "the first token of a node's slice is not taken for the node's own first token", bad is None,
                     c.loc((bad or b)["sp"]), "a node's token range starts with the comments written in front of it (every token parser "
-                    "skips them inside `info(..)`): `first()` of the slice is such a comment whenever there is one")
+                    "skips them inside `info(..)`): `first()` of the slice is such a comment whenever there is one" +
+                    (" - and this function panics when the token is not the one it expects: the request is never answered and the server exits" if panics else ""),
+                    ("panics",) if panics else ())
     if n_slices == 0:
         out.missing("AstInfo::slice uses in lsp4spl::features")
     return out
